@@ -5,7 +5,7 @@
 
 typedef unsigned long size_t;
 typedef long ptrdiff_t;
-typedef unsigned int wchar_t;
+typedef int wchar_t;
 typedef long max_align_t;
 
 #define offsetof(type, member) ((size_t)&(((type *)0)->member))
